@@ -30,8 +30,10 @@ REQUIRED = ['codec_roundtrip', 'codec_reserialize_stable', 'to_from_dict_roundtr
             'Stv.stv_nicks_distinct', 'Stv.stv_nicks_nonempty', 'Stv.stv_roundtrip', 'Stv.stv_dump_refuses', 'Stv.stv_header_roundtrip',
             'Stv.stv_parse_total', 'Stv.stv_former_foreign_errors', 'Stv.stv_end_and_empty_ballot_reload']
 REQUIRED_COUNTERS = ['codec_frac', 'codec_dec', 'codec_tuple', 'codec_fset', 'codec_sdict', 'codec_gdict', 'codec_obj', 'codec_callable',
-                     'codec_depth_4', 'unrepresentable', 'codec_plain_set', 'codec_reserved_key',
-                     'class_rt', 'class_bad', 'class_signatures', 'class_sensitive', 'sens_LargestRemainder_accept_equal',
+                     'codec_depth_4', 'unrepresentable', 'codec_plain_set', 'codec_reserved_key', 'codec_equal_values_different_types',
+                     'codec_same_name_two_registries', 'codec_wide',
+                     'class_rt', 'class_bad', 'class_signatures', 'class_sensitive', 'class_same_name_two_registries',
+                     'class_equal_values_different_types', 'sens_LargestRemainder_accept_equal',
                      'sens_LargestRemainder_on_overaward', 'cls_depth_4', 'feat_fraction', 'feat_decimal', 'feat_callable_by_name', 'feat_dict_keyed',
                      'blt_rt', 'blt_withdrawn', 'blt_withdrawn_first', 'blt_one_candidate', 'blt_title', 'blt_weight_int',
                      'blt_weight_dec', 'blt_weight_frac', 'blt_weight_proper_fraction', 'blt_person', 'blt_strname', 'blt_empty_ballot',
@@ -203,6 +205,10 @@ def _compare_codec(case, iobs, mobs):
 
 def _gen_codec(rng, n):
     g = CC.Gen(rng)
+    for tag, p in CC.directed_values():
+        c = {'op': 'codec', 'v': p, '_tags': [tag, 'codec_directed']}
+        _tag_codec(c)
+        yield c
     for k in range(n):
         r = rng.random()
         tags = []
@@ -253,7 +259,7 @@ def _impl_class(case):
     else:
         out['load'] = 'ok'
         d2 = _g(lambda: P.to_dict(y))
-        out['d_eq'] = (not _is_err(d2)) and d2 == d
+        out['d_eq'] = (not _is_err(d2)) and CC.same_typed(d2, d)          # 1 is not True is not Fraction(1)
         out['reser'] = d2 if _is_err(d2) else _g(lambda: CC.j_of_py(d2))
     txt = _g(lambda: json.dumps(d))
     if _is_err(txt):
@@ -401,15 +407,69 @@ def _gen_sensitive():
         yield {'op': 'class_rt', 'spec': w['spec'], 'seed': w['seed'], 'n_inputs': SE.N_INPUTS, '_tags': tags}
 
 
+def _class_directed_specs():
+    """(tag, spec): one callable __name__ living in two registries (quota.imperiali / divisor.imperiali) inside one system nested to
+    depth 4, in both orders, by callable and by name; equal values of different types (1, True, Fraction(1), Decimal('1')) in two
+    parameters of one object"""
+    E = 'votelib.evaluate.'
+    O = lambda cls, **a: {'t': 'obj', 'cls': cls, 'args': a}                      # noqa: E731
+    I = lambda v: {'t': 'int', 'v': v}                                            # noqa: E731
+    Fr = lambda v: {'t': 'frac', 'v': v}                                          # noqa: E731
+    De = lambda v: {'t': 'dec', 'v': v}                                           # noqa: E731
+    B = lambda v: {'t': 'bool', 'v': v}                                           # noqa: E731
+    S = lambda v: {'t': 'str', 'v': v}                                            # noqa: E731
+    C = lambda v: {'t': 'callable', 'v': v}                                       # noqa: E731
+    L = lambda *v: {'t': 'list', 'v': list(v)}                                    # noqa: E731
+    T = lambda *v: {'t': 'tuple', 'v': list(v)}                                   # noqa: E731
+    qi, di = C('votelib.component.quota.imperiali'), C('votelib.component.divisor.imperiali')
+    for q, d, tag in ((qi, di, 'callable'), (S('imperiali'), S('imperiali'), 'name')):
+        ha = O(E + 'proportional.HighestAverages', divisor_function=d)
+        lr = O(E + 'proportional.LargestRemainder', quota_function=q)
+        qd = O(E + 'proportional.QuotaDistributor', quota_function=q, on_overaward=S('subtract'))
+        for rounds in (L(ha, lr), L(lr, ha), L(ha, qd, ha), L(qd, lr, ha)):
+            inner = O(E + 'core.MultistageDistributor', rounds=rounds)
+            cond = O(E + 'core.Conditioned', eliminator=O(E + 'threshold.RelativeThreshold', threshold=De('0.05')), evaluator=inner)
+            yield 'class_same_name_two_registries', O('votelib.VotingSystem', name=S('two registries ' + tag), evaluator=cond)
+        yield 'class_same_name_two_registries', O(E + 'core.UnusedVotesDistributor', rounds=L(ha, ha), quota_functions=L(q, q))
+        yield 'class_same_name_two_registries', O(E + 'core.ByConstituency', evaluator=lr, apportioner=ha)
+        yield 'class_same_name_two_registries', O(E + 'core.ByConstituency', evaluator=ha, apportioner=lr)
+    one = [I(1), Fr('1'), De('1'), De('1.0'), B(True)]
+    for a in one[:4]:
+        for b in one[:4]:
+            if a is not b:
+                yield 'class_equal_values_different_types', O(E + 'cardinal.STAR', runoff_added_count=I(1), runoff_added_fraction=b,
+                                                              truncation=a if a['t'] != 'int' else Fr('0'))
+                yield 'class_equal_values_different_types', O('votelib.vote.VoteMagnitudeChecker', bounds=T(a, b))
+                yield 'class_equal_values_different_types', O(E + 'cardinal.ScoreVoting', truncation=a, bottom_value=b, min_count=I(1))
+                yield 'class_equal_values_different_types', O(E + 'openlist.ThresholdOpenList', jump_fraction=a, quota_function=S('hare'),
+                                                              quota_fraction=b, accept_equal=B(True))
+    yield 'class_equal_values_different_types', O('votelib.component.rankscore.SequenceBased', sequence=L(*one[:4], I(0), Fr('0'), De('0')))
+    yield 'class_equal_values_different_types', O(E + 'sequential.PreferenceAddition', coefficients=L(*one[:3]), split_equal_rankings=B(True))
+    yield 'class_equal_values_different_types', O(E + 'threshold.CoalitionMemberBracketer',
+                                                  evaluators={'t': 'dict', 'k': [I(1), I(2)],
+                                                              'v': [O(E + 'threshold.RelativeThreshold', threshold=Fr('1'), accept_equal=B(True)),
+                                                                    O(E + 'threshold.AbsoluteThreshold', threshold=De('1'), accept_equal=B(True))]},
+                                                  default=O(E + 'threshold.AbsoluteThreshold', threshold=I(1)))
+
+
+def _gen_class_directed(rng):
+    import props.c19_classes as KL
+    for tag, spec in _class_directed_specs():
+        for seed in (rng.randint(0, 10 ** 6), rng.randint(0, 10 ** 6)):
+            yield {'op': 'class_rt', 'spec': spec, 'seed': seed, 'n_inputs': 8,
+                   '_tags': ['class_rt', 'class_directed', tag, 'cls_depth_%d' % min(KL.spec_depth(spec), 4)]}
+
+
 def _gen_class(rng, n, n_bad):
     import props.c19_classes as KL
     yield {'op': 'class_sig', '_tags': ['class_signatures']}
     yield from _gen_sensitive()
+    yield from _gen_class_directed(rng)
     cov = KL.covered()
     order = list(cov)
     rng.shuffle(order)
     for k in range(n):
-        cls = order[k % len(order)] if k < 2 * len(order) else None     # every class at least twice, then free choice
+        cls = order[k % len(order)] if k < 10 * len(order) else None    # every class at least ten times, then free choice
         spec = KL.gen_spec(rng, cls, depth=rng.choice([1, 2, 3, 4, 4]))
         c = {'op': 'class_rt', 'spec': spec, 'seed': rng.randint(0, 10 ** 6), '_tags': ['class_rt']}
         c['_tags'] += ['cls_depth_%d' % min(KL.spec_depth(spec), 4)] + ['feat_' + f for f in KL.spec_features(spec)]
@@ -429,7 +489,31 @@ def _impl_blt_rt(case):
     if _is_err(text):
         return {'dump': text}
     loaded = _g(lambda: IO.doc_of_loaded(*blt.loads(text)))
-    return {'dump': 'ok', 'text': text, 'lines': IO.blt_tokenise(text), 'loaded': loaded}
+    return {'dump': 'ok', 'text': text, 'lines': IO.blt_tokenise(text), 'loaded': loaded,
+            'variants': _text_variants(text, loaded, lambda t: IO.doc_of_loaded(*blt.loads(t)),
+                                       lambda f: IO.doc_of_loaded(*blt.load(f)), lambda f: blt.dump(f, votes, n_seats, cands, title))}
+
+
+def _text_variants(text, base, loads, load, dump):
+    """the same file with Windows line ends, without its final newline, and through the file API (load / dump):
+    each must give what loads(dumps(...)) gives"""
+    import io
+    out = {}
+    for name, fn in (('crlf', lambda: loads(text.replace('\n', '\r\n'))), ('no_final_newline', lambda: loads(text.rstrip('\n'))),
+                     ('load_file', lambda: load(io.StringIO(text))),
+                     ('load_file_crlf', lambda: load(io.StringIO(text.replace('\n', '\r\n'), newline='')))):
+        got = _g(fn)
+        if got != base and not (_is_err(got) and _is_err(base) and got['err'] == base['err']):
+            out[name] = got
+
+    def dumped():
+        f = io.StringIO()
+        dump(f)
+        return f.getvalue()
+    got = _g(dumped)
+    if got != text:
+        out['dump_file'] = got if _is_err(got) else {'text': got[:200]}
+    return out
 
 
 def _haz_blt(case):
@@ -448,7 +532,11 @@ def _oracle_rt(case, obs, pre=''):
         return [('dump_raises', obs['dump']['exc'])]
     if _is_err(obs['loaded']):
         return [('load_raises', obs['loaded']['exc'])]
-    return IO.diff_docs(exp, obs['loaded'], pre)
+    return IO.diff_docs(exp, obs['loaded'], pre) + _oracle_variants(obs)
+
+
+def _oracle_variants(obs):
+    return [('variant_' + k, f'differs from loads(dumps(...)): {json.dumps(v, default=str)[:160]}') for k, v in sorted(obs.get('variants', {}).items())]
 
 
 def _haz_rt(case):
@@ -489,6 +577,7 @@ def _cmp_loaded(il, ml):
 
 def _gen_blt_rt(rng, n):
     yield from _gen_quote_hash('blt_rt')
+    yield from _gen_structure('blt_rt')
     for k in range(n):
         tags = []
         r = rng.random()
@@ -535,6 +624,28 @@ def _tag_doc(c, pre):
         t.append(pre + '_empty_ballot')
     if any(IO.weight_py(w) < 1 for _, w in d['ballots']):
         t.append(pre + '_weight_below_one')
+    for _, w in d['ballots']:
+        for f in IO.weight_features(w):
+            t.append(f'{pre}_{f}')
+    if not d['ballots']:
+        t.append(pre + '_zero_ballots')
+    if d['cands'] and all(k != 'str' and k != 'int' and w for _, w, k in d['cands']):
+        t.append(pre + '_all_withdrawn')
+    if len(d['cands']) >= 27:
+        t.append(pre + '_27plus_candidates')
+    for k in {k for _, _, k in d['cands']}:
+        t.append(f'{pre}_cand_{k}')
+    names = [n for n, _, _ in d['cands']]
+    if len({n.casefold() for n in names}) < len(set(names)):
+        t.append(pre + '_names_differ_in_case_only')
+    if len({''.join(n.split()) for n in names}) < len(set(names)):
+        t.append(pre + '_names_differ_in_whitespace_only')
+    if any(not n.isascii() for n in names):
+        t.append(pre + '_name_non_ascii')
+    if d.get('title') and not d['title'].isascii():
+        t.append(pre + '_title_non_ascii')
+    if '' in names:
+        t.append(pre + '_name_empty')
     for n, _, _ in d['cands']:
         for o in IO.quote_hash_order(n):
             t.append(f'{pre}_name_{o}')
@@ -542,6 +653,53 @@ def _tag_doc(c, pre):
         t.append(f'{pre}_title_{o}')
     for h in _haz_rt(c):
         t.append('hazard_' + h)
+
+
+def _gen_structure(op):
+    """directed, on every seed (generator checklist): zero ballots, one candidate, 27+ candidates, everybody withdrawn, candidate kinds
+    (str / Person / Person with number and party / bare ints incl. 0), names differing in case or inner white space only, names
+    that look like file syntax, non-ASCII names and titles, weights 0 in all three types, huge denominators, Decimal exponents,
+    2^53 and above, 10^400, near-equal weights, negative weights"""
+    W = lambda k, v: {'k': k, 'v': v}                                               # noqa: E731
+    P3 = [['Ann Lee', False, 'person'], ['ann lee', True, 'person_full'], ['Ann  Lee', False, 'person']]
+    S3 = [['Ann Lee', False, 'str'], ['ANN LEE', False, 'str'], ['Ann\tLee', False, 'str']]
+    many = [[f'Cand {i} {chr(65 + i % 26)}', i % 7 == 0, 'person'] for i in range(30)]
+    templates = [
+        (P3, [], 'Zero ballots'), (P3[:1], [], None), ([], [], None), ([], [[[], W('int', '2')]], 'No candidates'),
+        (S3[:1], [[[0], W('int', '1')], [[], W('int', '1')]], None),
+        ([[n, True, 'person'] for n, _, _ in P3], [[[2, 0], W('int', '2')]], 'All withdrawn'),
+        ([[n, True, 'person_full'] for n, _, _ in P3], [], None),
+        (many, [[list(range(29, -1, -1)), W('int', '3')], [[26, 27, 0], W('dec', '1.5')], [[29], W('int', '1')]], '30 candidates'),
+        ([['0', False, 'int'], ['7', False, 'int'], ['3', False, 'int']], [[[0, 2], W('int', '2')], [[1], W('int', '1')]], '0'),
+        (S3, [[[0, 1, 2], W('int', '0')], [[1], W('dec', '0')], [[2], W('frac', '0')], [[], W('dec', '0.0')]], 'Zero weights'),
+        (P3, [[[0], W('frac', '333333333333/1000000000000')], [[1], W('frac', '333333333334/1000000000000')],
+              [[2], W('frac', '1/1000000000000000000000000000007')], [[0, 1], W('dec', '0.1234567')]], 'Élection — 選挙'),
+        (S3, [[[0], W('dec', '1E+2')], [[1], W('dec', '1E-30')], [[2], W('dec', '5E-1')]], 'Exponents'),
+        (S3, [[[0], W('int', str(2 ** 53 - 1))], [[1], W('int', str(2 ** 53))], [[2], W('int', str(2 ** 53 + 1))],
+              [[0, 1], W('int', str(10 ** 400))], [[1, 0], W('int', str(10 ** 400 + 1))], [[2, 1], W('dec', '9007199254740993.5')]], 'Big'),
+        ([['Ünal Ö.', False, 'str'], ['ünal ö.', False, 'str'], ['Ωmega', False, 'str'], ['選挙 太郎', False, 'str']],
+         [[[0, 1], W('int', '2')], [[3], W('int', '1')]], 'Gemeinderat — 選挙'),
+        ([['end', False, 'str'], ['3X', False, 'str'], ['ballots=blt', False, 'str'], ['0', False, 'str'], ['title', False, 'str']],
+         [[[0], W('int', '1')], [[1, 0], W('int', '1')], [[3], W('int', '2')]], 'end'),
+        (S3, [[[0, 1], W('int', '-3')], [[1], W('int', '2')]], 'Negative int'),
+        (S3, [[[0, 1], W('frac', '-1/2')], [[1], W('int', '2')]], 'Negative fraction'),
+        (S3, [[[0, 1], W('dec', '-0.5')], [[1], W('int', '2')]], 'Negative decimal'),
+    ]
+    sys_own = {'quota': 'droop', 'mandatory': False, 'random': None, 'seats': 'fixed', 'wrap': True}
+    for cands, ballots, title in templates:
+        modes = [None] if op == 'blt_rt' else [None, sys_own]
+        for sysd in modes:
+            doc = {'seats': min(2, max(len(cands), 1)), 'cands': json.loads(json.dumps(cands)), 'ballots': json.loads(json.dumps(ballots)),
+                   'title': title}
+            c = {'op': op, 'doc': doc, '_tags': ['structure_directed']}
+            if op == 'stv_rt':
+                c['sys'] = dict(sysd) if sysd else None
+                if sysd is None:
+                    doc['title'] = None
+            _tag_doc(c, 'blt' if op == 'blt_rt' else 'stv')
+            if op == 'stv_rt':
+                c['_tags'].append('stv_blt_mode' if sysd is None else 'stv_own_mode')
+            yield c
 
 
 def _gen_quote_hash(op):
@@ -584,7 +742,8 @@ def _gen_quote_hash(op):
 # ------------------------------------------------------------------------------------------------ op blt_text
 def _impl_blt_text(case):
     import votelib.io.blt as blt
-    return {'loaded': _g(lambda: IO.doc_of_loaded(*blt.loads(case['text'])))}
+    kw = {'oneplus_weights': True} if case.get('oneplus') else {}
+    return {'loaded': _g(lambda: IO.doc_of_loaded(*blt.loads(case['text'], **kw)))}
 
 
 def _oracle_blt_text(case, obs):
@@ -592,7 +751,7 @@ def _oracle_blt_text(case, obs):
     if _is_err(got) and got['err'] != 'ParseError':
         return [('raises_' + got['exc'], 'a text that is not a BLT file must raise BLTParseError')]
     try:
-        ref = IO.ref_blt(case['text'])
+        ref = IO.ref_blt(case['text'], bool(case.get('oneplus')))
     except IO.Invalid as e:
         if not _is_err(got):
             return [('accepted_invalid', f'{e}; returned {json.dumps(got)[:200]}')]
@@ -608,7 +767,7 @@ def _model_blt_text(case):
     lines = IO.blt_tokenise(case['text'])
     if lines is None:
         return None
-    return {'op': 'blt_load', 'lines': lines}
+    return {'op': 'blt_load', 'lines': lines, 'oneplus': bool(case.get('oneplus'))}
 
 
 def _compare_blt_text(case, iobs, mobs):
@@ -667,8 +826,14 @@ def _gen_blt_text(rng, n):
     import votelib.io.blt as blt
     for t in BLT_HANDMADE:
         yield {'op': 'blt_text', 'text': t, '_tags': ['blt_text', 'mut_handmade'], '_origin': 'handmade'}
+    for t in ('2 1\n0.5 1 0\n0\n', '2 1\n1 1 0\n1/2 2 0\n0\n', '2 1\n0 1 0\n0\n', '2 1\n1 1 0\n2.5 2 1 0\n0\n"A"\n"B"\n',
+              '2 1\n0.5 1\n0\n', '2 1\n1 1 0\n0.999999999999 2 0\n'):
+        yield {'op': 'blt_text', 'text': t, 'oneplus': True, '_tags': ['blt_text', 'blt_oneplus', 'blt_oneplus_directed'], '_origin': 'handmade'}
+    for t in BLT_HANDMADE[4:12]:
+        for kind, v in (('crlf', t.replace('\n', '\r\n')), ('bom', '\ufeff' + t), ('no_final_newline', t.rstrip('\n'))):
+            yield {'op': 'blt_text', 'text': v, '_tags': ['blt_text', 'mut_' + kind, 'text_variant_directed'], '_origin': kind}
     for k in range(n):
-        doc = IO.gen_doc(rng, weights=('int', 'dec'))
+        doc = IO.gen_doc(rng, weights=('int', 'dec', 'frac'), big=False)
         votes, n_seats, cands, title = IO.build_doc(doc)
         text = blt.dumps(votes, n_seats, cands, title)
         kinds = []
@@ -676,6 +841,10 @@ def _gen_blt_text(rng, n):
             text, kind = IO.mutate_text(rng, text)
             kinds.append(kind)
         if IO.huge_header(text):
+            continue
+        if rng.random() < 0.2:        # the reader option oneplus_weights=True: weights below 1 are not a valid file
+            yield {'op': 'blt_text', 'text': text, 'oneplus': True, '_tags': ['blt_text', 'blt_oneplus'] + ['mut_' + x for x in kinds],
+                   '_origin': '+'.join(kinds)}
             continue
         yield {'op': 'blt_text', 'text': text, '_tags': ['blt_text'] + ['mut_' + x for x in kinds], '_origin': '+'.join(kinds)}
 
@@ -761,7 +930,14 @@ def _impl_stv_rt(case):
     text = _g(dump)
     if _is_err(text):
         return {'dump': text}
-    return {'dump': 'ok', 'text': text, 'loaded': _g(lambda: _stv_loaded(*stv.loads(text)))}
+    loaded = _g(lambda: _stv_loaded(*stv.loads(text)))
+
+    def dump_file(f):
+        with warnings.catch_warnings():
+            warnings.simplefilter('ignore')
+            stv.dump(f, votes, system, cands, n_arg)
+    return {'dump': 'ok', 'text': text, 'loaded': loaded,
+            'variants': _text_variants(text, loaded, lambda t: _stv_loaded(*stv.loads(t)), lambda f: _stv_loaded(*stv.load(f)), dump_file)}
 
 
 def _expected_stv(case):
@@ -812,7 +988,7 @@ def _oracle_stv_rt(case, obs):
         return [('dump_raises', obs['dump']['exc'])]
     if _is_err(obs['loaded']):
         return [('load_raises', obs['loaded']['exc'])]
-    return IO.diff_docs(_expected_stv(case), obs['loaded'], '')
+    return IO.diff_docs(_expected_stv(case), obs['loaded'], '') + _oracle_variants(obs)
 
 
 def _model_stv_rt(case):
@@ -916,9 +1092,10 @@ def _gen_stv_below_one(rng):
 
 def _gen_stv_rt(rng, n):
     yield from _gen_quote_hash('stv_rt')
+    yield from _gen_structure('stv_rt')
     yield from _gen_stv_many(rng)
     yield from _gen_stv_below_one(rng)
-    plain = [x for x in IO.NAMES_PLAIN + IO.NAMES_RICH if '#' not in x and x == x.strip() and x and _initials(x)]
+    plain = [x for x in IO.NAMES_PLAIN + IO.NAMES_RICH + IO.NAMES_CLASH if '#' not in x and x == x.strip() and x]
     for k in range(n):
         r = rng.random()
         if r < 0.3:
@@ -1031,7 +1208,7 @@ def _gen_stv_text(rng, n):
         yield {'op': 'stv_text', 'text': t, '_tags': ['stv_text', 'stv_header_directed'], '_origin': 'header_directed'}
     plain = [x for x in IO.NAMES_PLAIN if True]
     for k in range(n):
-        doc = IO.gen_doc(rng, names=plain, title='T', weights=('int',))
+        doc = IO.gen_doc(rng, names=plain, title='T', weights=('int',), big=False)
         doc['ballots'] = [b for b in doc['ballots'] if b[0]]
         sysd = None if rng.random() < 0.3 else {'quota': 'droop', 'random': rng.choice([None, 'non', 5]), 'seats': 'fixed', 'wrap': True}
         votes, n_seats, cands, title = IO.build_doc(doc)
@@ -1061,7 +1238,7 @@ MODEL = {'blt_clean': (lambda case: {'op': 'blt_clean', 'line': case['line']}), 
          'stv_rt': _model_stv_rt, 'stv_text': _model_stv_text}
 COMPARE = {'blt_clean': _compare_blt_clean, 'codec': _compare_codec, 'class_rt': _compare_class, 'blt_rt': _compare_blt_rt, 'blt_text': _compare_blt_text,
            'stv_rt': _compare_stv_rt, 'stv_text': _compare_stv_text}
-HAZ = {'codec': _haz_codec, 'class_rt': _haz_class, 'blt_rt': _haz_blt, 'stv_rt': _haz_stv}
+HAZ = {'blt_text': (lambda case: {'oneplus'} if case.get('oneplus') else set()), 'codec': _haz_codec, 'class_rt': _haz_class, 'blt_rt': _haz_blt, 'stv_rt': _haz_stv}
 
 
 def impl(case):
@@ -1251,7 +1428,7 @@ def generate(rng, tier):
     yield from _gen_blt_text(rng, 3000 if q else 40000)
     yield from _gen_stv_rt(rng, 2000 if q else 25000)
     yield from _gen_stv_text(rng, 2000 if q else 25000)
-    yield from _gen_class(rng, 1000 if q else 12000, 120 if q else 1500)
+    yield from _gen_class(rng, 1400 if q else 12000, 120 if q else 1500)
     if not q:
         yield from _exhaustive_blt()
         yield from _gen_exhaustive_codec()
